@@ -77,7 +77,8 @@ func c12Eq(t *rapid.T) string {
 	return rapid.SampledFrom([]string{"=", "=", "=", " = ", " =", "= ", "\t=\n"}).Draw(t, "eq")
 }
 
-var c12Starts = []string{"<!DOCTYPE html>", "<!doctype html>", "<!DOCTYPE HTML PUBLIC \"-//W3C//DTD HTML 4.01//EN\">", "<html>", "<HTML >", "<html lang=\"en\">", "<head>", "<!DOCTYPE html>\n<html>\n<head>", "<html><head>"}
+var c12Starts = []string{"<!DOCTYPE html>", "<!doctype html>", "<!DOCTYPE HTML PUBLIC \"-//W3C//DTD HTML 4.01//EN\">", "<html>", "<HTML >", "<html lang=\"en\">", "<head>", "<!DOCTYPE html>\n<html>\n<head>", "<html><head>",
+	"<title>t</title>", "<body>", "<div >", "<p>", "<table><tr><td>x</td></tr></table>", "<!DOCTYPE HTML>", "<HtMl>", "<HEAD >", "<style>b{}</style>", "<script>var a;</script>", "<h1>x</h1>", "<br>", "<a href=\"x\">y</a>", "<b>", "<font >", "<iframe src=x></iframe>"}
 
 var c12HTMLPrologue = []string{
 	"<!-- a comment -->", "<!-- <meta charset=\"fake-in-comment\"> -->", "<!---->",
@@ -101,7 +102,7 @@ func c12GenHTML(t *rapid.T) c12Case {
 		sb.WriteString("\xef\xbb\xbf")
 		flags["bom"] = true
 	}
-	sb.WriteString(rapid.SampledFrom([]string{"", "", "", "\n", "  ", "\r\n\t"}).Draw(t, "lead"))
+	sb.WriteString(rapid.SampledFrom([]string{"", "", "", "\n", "  ", "\r\n\t", "\x0c", " \x0c\n"}).Draw(t, "lead"))
 	sb.WriteString(rapid.SampledFrom(c12Starts).Draw(t, "start"))
 	for i, n := 0, rapid.IntRange(0, 4).Draw(t, "npro"); i < n; i++ {
 		p := rapid.SampledFrom(c12HTMLPrologue).Draw(t, "pro")
